@@ -240,7 +240,7 @@ struct InflateSession {
                         int kind = (int) ((uint64_t) d.ai(0) % 6);
                         if (kind == 0 || bytes.empty())
                                 continue;
-                        int region = (int) ((uint64_t) d.ai(1) % 5);
+                        int region = (int) ((uint64_t) d.ai(1) % 6);
                         uint64_t off = (uint64_t) d.ai(2), val = (uint64_t) d.ai(3);
                         size_t len = bytes.size(), pos;
                         switch (region) {
@@ -248,6 +248,7 @@ struct InflateSession {
                         case 2: pos = (size_t) (((off & 0xffff) * len) >> 16); break;
                         case 3: pos = trl_len && (mode != ISAL_DEFLATE) ? body_end + off % trl_len : off % len; break;
                         case 4: pos = hdr_len ? off % hdr_len : off % len; break;
+                        case 5: pos = hdr_len + off % 16; break; // block header / start of the code-length section
                         default: pos = off % len;
                         }
                         if (pos >= len)
@@ -728,6 +729,21 @@ struct InflateSession {
                                 return;
                         }
                 }
+                // (3b) the same for the one-shot decoder (ample sink): success only if the reference accepts, with the same bytes
+                if (os1.ran && os1.ret == 0 && os1.block_state == ISAL_BLOCK_FINISH) {
+                        if (rs == REF_ERR_TRAILER && verifying) {
+                                rr.fail("C11.false_success", strf("one-shot decoder reports success in verifying mode %d but the stored trailer does not match the %zu delivered bytes", mode, os1.out.size()));
+                                return;
+                        }
+                        if (rs != REF_DONE && rs != REF_ERR_OUTLIMIT && rs != REF_ERR_TRAILER) {
+                                rr.fail("C06.false_success", strf("one-shot decoder reports completion (%zu bytes out) but the reference decoder says: %s at bit %llu of %zu bytes (mode %d)", os1.out.size(), ref_status_name(rs), (unsigned long long) ref.err_bit, bytes.size(), mode));
+                                return;
+                        }
+                        if (rs == REF_DONE && (ref.out.size() != os1.out.size() || memcmp(ref.out.data(), os1.out.data(), os1.out.size()))) {
+                                rr.fail("C06.wrong_output", strf("one-shot decoder finished with %zu bytes, reference decodes %zu bytes", os1.out.size(), ref.out.size()));
+                                return;
+                        }
+                }
                 // (4) documented class for single named faults, all bytes supplied
                 if (expect_class && fed == bytes.size() && bytes.size() >= fault_end_byte + 8) {
                         if (final_ret != expect_class) {
@@ -851,7 +867,7 @@ static Json gen_inflate(Rng &r0, const std::string &focus, int tier)
                                 dk = c < 3 ? 1 : c < 7 ? 2 : c < 9 ? 3 : 5;
                         else
                                 dk = c < 3 ? 1 : c < 5 ? 2 : c < 7 ? 3 : c < 8 ? 4 : 5;
-                        int region = (int) rx.below(5);
+                        int region = (int) rx.below(6);
                         if (focus == "C11" && rx.chance(1, 2))
                                 region = rx.chance(1, 2) ? 3 : 1;
                         d.push(dk).push(region).push(rx.chance(1, 2) ? (uint64_t) rx.below(40) : rx.u64() >> 40).push((int) rx.below(256));
